@@ -31,7 +31,7 @@ P = {
               "Decides the per-operation preservation conditions that form the inductive step of the structural invariant: slot count balanced on every "
               "normal path, no seek/write below the table, one geometry (header/entry sizes recomputed from the writers), unused slots built with size 0, "
               "free-slot offsets derived from post-shift state. It does not decide the global non-overlap invariant over concrete histories."),
-    "C04": _p("static: frame-condition rules on entry fields + codec symmetry of TdfEntry + def-use/dominance in replace_block + exhaustive dispatch table check", "3/C04",
+    "C04": _p("static: frame-condition rules on entry fields + codec symmetry of TdfEntry (incl. its string/date primitives) + path summaries of replace_block and the setters (comment carry, delegation) + exhaustive dispatch table check", "3/C04",
               "Decides which entry fields and which byte ranges each mutator statement may touch: only .offset of surviving entries, whole-entry rewrite "
               "through a symmetric TdfEntry codec, tail source/destination/shift use the same expressions, the comment is carried by an `is not None` "
               "test on an entry captured before removal, and every BlockType member dispatches to the class of that type. Byte equality under concrete "
@@ -42,19 +42,19 @@ P = {
               "whole-buffer NaN store before its first partial store and before escaping, and that decoder stores land on the run's own frames. The numpy "
               "contract itself (all 2^n masks) is trusted, not decided.",
               "numpy masked_invalid + clump_unmasked return the maximal runs of non-NaN entries."),
-    "C06": _p("static: conformance of writer and reader layout terms to an independent declarative reference layout; dtype endianness resolver", "3/C06",
+    "C06": _p("static: conformance of writer and reader layout terms to an independent declarative reference layout (records, block type codes, format codes); dtype endianness resolver", "3/C06",
               "Decides that the layout term of every writer and every reader (22 records incl. header and table entry) equals an independent reference "
               "table position by position (kind, width, shape, count linkage, reserved bytes, stored bias, format alternatives, grid/cell order) and that "
               "every dtype/struct format is explicitly little-endian - so a change made consistently on both sides is reported. The thorough tier "
               "additionally validates the reference table itself against the BTS capture with a stdlib struct parser (oracle sanity; no repository code "
               "is executed). Golden digests of decoded values are not decided.",
               "The reference table /verif/sa/reference_layout.py."),
-    "C07": _p("static: effect/reject classification + CFG reachability (no path effect ->+ refusal), taint (def-use) of request-derived data, callee summaries", "3/C07",
+    "C07": _p("static: effect/reject classification + CFG reachability (no path effect ->+ refusal), taint (def-use) of request-derived data, callee summaries, path summaries (no refusing path has stored into the object)", "3/C07",
               "Decides that on every path of every mutator everything that can refuse the request (escaping raises, evaluation on caller-supplied "
               "objects, serialisation of request-derived data, calls to refusing mutators) precedes the first change to the file or the in-memory table, and "
               "that late-refusing serialisers never get the live handle. This is the property for every rejection cause and file state, because the "
               "argument does not depend on them; asynchronous/OS failures are out of scope."),
-    "C08": _p("static: typestate machine extracted from the AST + finite guard evaluation per reachable state; who-may-write and call-graph purity rules", "3/C08",
+    "C08": _p("static: typestate machine extracted from the AST + finite guard evaluation per reachable state; who-may-write (file effects, access state) and call-graph purity rules; path summaries of the wrappers and of replace_block", "3/C08",
               "Decides that file effects exist only in four owners and go through the handle, that the handle is opened only by open(self._mode) in "
               "__enter__ and closed/reset unconditionally in __exit__, and - over all reachable (inside, mode, handle, allow_write-since-exit) states of "
               "the extracted machine - that a mutator can reach a file effect only with a read-write handle inside a context entered after allow_write(); "
@@ -64,11 +64,11 @@ P = {
               "Decides that the offset of the slot appended by remove_block is end-of-data of the post-shift table, that the tail move is seek/read/seek/"
               "write/truncate/flush in that order with the same three expressions as the table shift, that re-pointing and shift loops cover the whole "
               "tail unconditionally, and that Tdf.new points all slots at the end of the table. The arithmetic identity over concrete histories is not decided."),
-    "C10": _p("static: must-pass-through dataflow (dirty entry -> entry write), cursor-position analysis on the CFG (slot index = list index), flush-on-exit", "3/C10",
+    "C10": _p("static: must-pass-through dataflow (dirty entry -> entry write), cursor-position analysis on the CFG (slot index = list index), flush-on-exit, per-path decode in get_block", "3/C10",
               "Decides that every table change in memory is paired on every normal path with the whole-entry write of that entry at slot 64+288*i with i "
               "its list index, that every path from a file effect to a normal return passes flush(), that the table is re-parsed from the header count on "
               "every context entry, that the size comes from the file system and get_block decodes from the handle at the entry's offset."),
-    "C11": _p("static: swallowed-raise rule (exception hierarchy), name resolution of self attributes, sibling cross-check of accessor groups", "3/C11",
+    "C11": _p("static: swallowed-raise rule (exception hierarchy), name resolution of self attributes, sibling cross-check of accessor groups, path summaries (duplicate refusal, lookup contract, replace composition, removal predicate), guard admission over the typestate machine", "3/C11",
               "Decides that the duplicate-type refusal is live code that reaches the caller and is decided over the entry table, that every self.<name> read in "
               "Tdf resolves, that getter / predicate / setter / decoded class of each convenience group name one block type with `replace if present else add`, "
               "and the definitions of len, blocks and lookup. Agreement on concrete histories follows from C10's pairing and is not re-proved."),
@@ -85,7 +85,7 @@ P = {
               "zip-based element comparisons are conjoined with a length comparison (directly or through the parallel channel list), that gap-capable sample "
               "arrays are compared NaN-aware, that element classes of compared containers define __eq__, and Tdf.__eq__'s three conjuncts. Tolerance "
               "semantics of allclose are not decided."),
-    "C15": _p("static: path enumeration of paired list mutations on each method's CFG, dominance of uniqueness guards, list/ndarray kind inference", "3/C15",
+    "C15": _p("static: path enumeration of paired list mutations on each method's CFG, path summaries of the adders (uniqueness / fresh channel / explicit channel), bulk-operation delegation table, list/ndarray kind inference, decoder linkage of the channel list", "3/C15",
               "Decides that index alignment of channel list and item list is preserved by every method on every path including exception paths and from every "
               "way of obtaining a block (constructor, decoder): paired initialisation, pairwise mutations with nothing raise-capable in between, uniqueness "
               "guard dominating explicit appends, provably fresh automatic channels, list-kind installs, roll-backs, label lookups, encoding order."),
@@ -94,7 +94,7 @@ P = {
               "self before them, only the four owners touch the containers, list assignment saves before reset, goes through the guarded add, catches "
               "Exception, restores and re-raises, and decoders build tracks with the block's own frame count. Mutation through the list returned by the "
               "getter is outside the property's quantifier."),
-    "C17": _p("static: dominance of the existence test over every file-creating call on the same path value; header layout conformance; signature-before-decode ordering", "3/C17",
+    "C17": _p("static: path summaries of new/copy (existence test before every file-creating call on the same path value, no destructive call); header layout conformance; signature-before-decode ordering with a whole-value comparison", "3/C17",
               "Decides that every file-creating call in new/copy is dominated by `if p.exists(): raise FileExistsError` on the path built from the argument, "
               "that the empty container has the reference layout (version 1, 14 zero-size slots at 4096, nothing after), that __init__ refuses missing paths "
               "and __enter__ compares the signature before decoding any field, and the copy direction. Races with other processes are not decided."),
@@ -151,8 +151,9 @@ def main():
             "name": "sa",
             "path": "/verif/sa",
             "serves_properties": [c["property_id"] for c in checks],
-            "kind_free_text": "stdlib-only static analyser (ast): program index, dtype resolver, codec abstract interpreter "
-                              "(layout terms), size polynomials, statement CFG/dominance, finite guard tables, typestate model",
+            "kind_free_text": "stdlib-only static analyser (ast): normalisation pre-pass (AST to AST, semantics-preserving rewrites), program "
+                              "index, dtype resolver, codec abstract interpreter (layout terms), size polynomials, statement CFG/dominance, "
+                              "path summaries, finite guard tables, typestate model",
         }],
         "checks": checks,
         "notes": "Family: static analysis. Exit 0 = all obligations discharged (KNOWN-FINDING lines for listed defects), exit 1 + "
